@@ -123,7 +123,7 @@ def h_segment(ctx, chroms, method, skip_low, min_weight, outliers=False, case=No
     try:
         segs = segmentation.do_segmentation(cna, method, skip_low=skip_low, skip_outliers=(10 if outliers else 0), min_weight=min_weight)
     except Exception as exc:
-        ctx.claim(False, f"do_segmentation({method}) raised {type(exc).__name__}", info=str(exc)[:200])
+        claim_raised(ctx, f"do_segmentation({method})", exc)
         return
     finally:
         for (obj, name), val in saved.items():
